@@ -1,6 +1,7 @@
 import Pyrealb.Model.GetElems
 import Pyrealb.Lemmas.Typ
 import Pyrealb.Lemmas.HeapHist
+import Pyrealb.Lemmas.HeapHeaded
 /-! # C11 — only the final tree and the final flag values matter
 
 Property theorems only.  Models: `Model/GetElems` (`_getElems`), `Model/Typ` (`Constituent.typ`, reader idioms),
@@ -348,6 +349,47 @@ theorem link_confluent_partial (hinit hinit' : Heap) (p p' : Nat) (steps : List 
   simp only [Except.ok.injEq] at t2
   exact t2
 
+theorem headed_pure (wt : Bool) (p : Nat) (Q : List Act) (hQ : Headed wt p Q) : PurePlan Q := by
+  rcases hQ with rfl | ⟨hd, _, rfl⟩
+  · intro a ha; simp at ha
+  · intro a ha
+    cases wt <;> simp [headedPlan] at ha
+    · subst ha; rfl
+    · rcases ha with rfl | rfl <;> rfl
+
+/-- **C11.c structural** (VP, PP, AP, AdvP — the phrases whose link run only copies the record(s) of their head;
+    `Lemmas/HeapHeaded.plan_headed`: every plan of such a phrase that does not contain itself has the form `Headed`).
+    For EVERY history of insertions into such a phrase `p` (not yet attached), in any order and at any position: if the
+    head `H` of the final child list has an agreement record (and a tense record when `p` is a VP, `wt = true`) — e.g. it
+    is the V of the VP, the A of the AP — the history ends in the link state of the one-shot construction, whatever the
+    heads of the intermediate child lists were (`VP(Adv("now")).add(V("sleep"))`, a head inserted in front of another …).
+    The condition fails exactly in the known within-node findings of these kinds (a final head without record: PP, a
+    phrase left headless). -/
+theorem link_confluent_headed (wt : Bool) (hinit hinit' : Heap) (p p' : Nat) (steps : List (Nat × Option Int))
+    (Ps : List (List Act)) (H : Nat) (h : Heap) (e' : Nat) (pos' : Option Int) (h1 : Heap)
+    (base : hinit.ptr = hinit'.ptr)
+    (tr : Trace p hinit steps (Ps ++ [headedPlan wt p H]) h)
+    (one : Trace p' hinit' [(e', pos')] [headedPlan wt p H] h1)
+    (shape : ∀ Q ∈ Ps, Headed wt p Q) (hH : H ≠ p) (hp : (hinit.peng H).isSome)
+    (ht : wt = true → (hinit.taux H).isSome) : linkState h = linkState h1 := by
+  have pureF : PurePlan (headedPlan wt p H) := headed_pure wt p _ (Or.inr ⟨H, hH, rfl⟩)
+  have pure : ∀ Q ∈ Ps ++ [headedPlan wt p H], PurePlan Q := by
+    intro Q hQ
+    rcases List.mem_append.mp hQ with hQ | hQ
+    · exact headed_pure wt p Q (shape Q hQ)
+    · simp at hQ; subst hQ; exact pureF
+  have t1 := trace_ptr tr pure
+  have t2 := trace_ptr one (fun Q hQ => by simp at hQ; subst hQ; exact pureF)
+  rw [headed_absorbed wt hinit.ptr p H Ps shape hH hp ht] at t1
+  simp only [runPlans] at t2
+  rw [← base] at t2
+  cases hx : execP hinit.ptr (headedPlan wt p H) with
+  | error c => rw [hx] at t1; cases t1
+  | ok q =>
+    rw [hx] at t1 t2
+    simp only [Except.ok.injEq] at t1 t2
+    simp only [linkState, ← t1, ← t2]
+
 /-- **C11.c partial** (across levels, on the pointer part).  A history whose link runs are `Ps` (nodes linked while
     still incomplete, ancestors linked before their descendants were complete …) and which ENDS by re-linking, bottom-up,
     the nodes `Qs` (the receiver of the last `add` and then every ancestor) reaches the link state of running `Qs` alone
@@ -587,6 +629,27 @@ example : linkState nv_b = linkState nv_one :=
 
 /-- … and the two link states are not trivial: the determiner ends up sharing the noun's record -/
 example : nv_b.peng 0 = nv_b.peng 1 ∧ nv_a.peng 0 ≠ nv_b.peng 0 := by decide
+
+-- `VP(Adv("now")).add(V("sleep"))` against `VP(Adv("now"),V("sleep"))`: the first run sees the head `now` (no record)
+def hd_h0 : Heap := (mkTerminal (mkTerminal {} (tspec .Adv "now")).1 (tspec .V "sleep")).1
+def hd_init : Heap := preMk hd_h0 .VP .en [0]
+def hd_l0 : Heap := R.get default (linkR (preLink hd_init 2 0 none) 2)
+def hd_l1 : Heap := R.get default (linkR (preLink (reorder hd_l0 2) 2 1 none) 2)
+def hd_init' : Heap := preMk hd_h0 .VP .en [0, 1]
+def hd_l1' : Heap := R.get default (linkR (preLink hd_init' 2 1 none) 2)
+
+/-- non-vacuity of `link_confluent_headed` (the head changes from `now` to `sleep`) -/
+example : linkState (reorder hd_l1 2) = linkState (reorder hd_l1' 2) :=
+  link_confluent_headed true hd_init hd_init' 2 2 [(0, none), (1, none)] [headedPlan true 2 0] 1 _ 1 none _ rfl
+    (Trace.cons (Qs := []) (by decide) (R.eq_ok default _ (by decide)) (UpRuns.top (by decide))
+      (Trace.cons (Qs := []) (Ps := []) (by decide) (R.eq_ok default _ (by decide)) (UpRuns.top (by decide))
+        (Trace.nil _)))
+    (Trace.cons (Qs := []) (Ps := []) (by decide) (R.eq_ok default _ (by decide)) (UpRuns.top (by decide)) (Trace.nil _))
+    (by intro Q hQ; simp at hQ; subst hQ; exact Or.inr ⟨0, by decide, rfl⟩) (by decide) (by decide) (by decide)
+
+/-- … and its plans are indeed of the headed form, by `plan_headed` -/
+example : Headed true 2 ((plan (preLink hd_init 2 0 none) 2).getD []) :=
+  plan_headed (preLink hd_init 2 0 none) 2 _ (by decide) (by decide) (by decide)
 
 -- top-down assembly of “the cats sleep”: np=NP(D("the")); s=S(np,VP(V("sleep"))); np.add(N("cat").n("p"))
 def lv_base : Heap :=
